@@ -13,6 +13,7 @@ fn main() {
         "obs-enc" => codec::cmd_obs_enc(rest),
         "obs-dec" => codec::cmd_obs_dec(rest),
         "rand-enc" => codec::cmd_rand_enc(rest),
+        "rand-dec" => codec::cmd_rand_dec(rest),
         other => {
             eprintln!("unknown command {other}");
             std::process::exit(2);
